@@ -22,6 +22,8 @@
 (*   "InPlace"   insert into the published table instead of a copy         *)
 (*   "NoRecheck" no double check under the lock                            *)
 (*   "OldMask"   rehash keeps the old probe mask                           *)
+(*   "HashOnly"  a probe accepts a slot whose type has the same hash (the  *)
+(*               32-bit hash is compared, the type itself is not)          *)
 (***************************************************************************)
 EXTENDS Naturals, Sequences, FiniteSets, TLC
 
@@ -40,8 +42,8 @@ Empty(cap) == [cap |-> cap, mask |-> cap - 1, n |-> 0, slot |-> [i \in 0..(cap -
 RECURSIVE ProbeFrom(_, _, _, _)
 ProbeFrom(m, t, p, left) ==
   IF left = 0 THEN [found |-> FALSE, pos |-> m.cap]     \* table full: no position
-  ELSE IF m.slot[p] = t THEN [found |-> TRUE, pos |-> p]
   ELSE IF m.slot[p] = NoType THEN [found |-> FALSE, pos |-> p]
+  ELSE IF (IF "HashOnly" \in Mut THEN Hash(m.slot[p]) = Hash(t) ELSE m.slot[p] = t) THEN [found |-> TRUE, pos |-> p]
   ELSE ProbeFrom(m, t, (p + 1) % (m.mask + 1), left - 1)      \* p = (p + 1) & mask
 Mod(a, b) == a % b
 Probe(m, t) == ProbeFrom(m, t, Mod(Hash(t), m.mask + 1), m.mask + 1)
@@ -119,6 +121,9 @@ TableOK == \A i \in 1..Len(heap) :
 \* every stored type is found again by probing (no entry lost by rehash / wrong mask)
 Findable == \A i \in 1..Len(heap) : \A a \in 0..(heap[i].cap - 1) :
               heap[i].slot[a] # NoType => Probe(heap[i], heap[i].slot[a]).found
+\* a lookup that succeeds has found the entry of the type it looked for, whatever else hashes alike
+ServedOwn == \A i \in 1..Len(heap) : \A t \in Types :
+               LET pr == Probe(heap[i], t) IN pr.found => heap[i].slot[pr.pos] = t
 MutexOK == mtx # 0 => pc[mtx] \in {"recheck", "compile", "publish", "unlock"}
 Terminates == <>AllDone
 =============================================================================
